@@ -448,17 +448,21 @@ def setNextCpRevoke (p : Policy) (e : EState) (num : Nat) : Except Kind EState :
 
 /-! ### entry points (channel.rs) -/
 
-/-- `Channel::sign_counterparty_commitment_tx_phase2`: new enforcement state when the signature is returned. -/
+/-- `Channel::sign_counterparty_commitment_tx_phase2` (`phase1 = false`) and
+    `Channel::sign_counterparty_commitment_tx` on a transaction built from the same values (`phase1 = true`):
+    new enforcement state when the signature is returned.  The two differ in one place: phase 2 signs the
+    HTLC transactions as well (`keys.sign_counterparty_commitment`), phase 1 signs the commitment only
+    (`built_tx.sign_counterparty_commitment`), so LDK's `build_htlc_transaction` is never reached there. -/
 def signCounterparty (p : Policy) (s : Setup) (c : ChainState) (e : EState) (n : Nat) (point : Nat)
-    (i : Info) : Except Kind EState := do
+    (i : Info) (phase1 : Bool) : Except Kind EState := do
   validateChannelValue p s
   whenE (claimablePanics s i) (.error .panic)
   validateCounterparty p s c e n point i
   whenE (msatPanics p i) (.error .panic)
   -- make_counterparty_commitment_tx: `INITIAL_COMMITMENT_NUMBER - commitment_number` (plain `-`)
   whenE (decide (n > initialCommitmentNumber)) (.error .panic)
-  -- keys.sign_counterparty_commitment inside catch_panic!: "failed to sign"
-  hard .other (htlcTxUnderflow s i)
+  -- phase 2 only: keys.sign_counterparty_commitment (commitment + HTLC txs) inside catch_panic!: "failed to sign"
+  hard .other (!phase1 && htlcTxUnderflow s i)
   let n1 ← addU64 n 1
   setNextCpCommit p e n1 point i
 
